@@ -226,7 +226,7 @@ def unit_c05_sweep():
             k = 0
             for keyspec, keyidx in (("id", (0,)), ("id, name", (0, 1)), ("name,kind,id", (1, 2, 0))):
                 for n in range(0, 5 if not ctx.thorough else 7):
-                    for rows in itertools.product([("1", "x", "a"), ("2", "x", "a"), ("1", "y", "b"), ("bad", "x", "a")], repeat=n):
+                    for rows in itertools.product([("1", "x", "a"), ("2", "x", "a"), ("1", "y", "b"), ("bad", "x", "a"), ("01", "x", "a")], repeat=n):        # '01' and '1' are different cell values
                         k += 1
                         if n >= 4 and k % 4 and not ctx.thorough: continue
                         yield ("unique", keyspec, keyidx, rows, ("raise", "yield", "continue")[k % 3])
@@ -293,7 +293,7 @@ def unit_c05_sweep():
             return None if obs == want else {"expected": "end of data %s (names %s %d: %s, kinds %s %d: %s)" % ("passes" if want else "fails", op1, t1, w1, op2, t2, w2), "observed": "passes" if obs else "fails"}
         multi = sweep("C05/sweep/two DistinctCount checks in one CID count their own fields", multi_cases(), multi_check, "bounded", "3 x 3 comparisons x row sequences of 0-3 rows over a 3-row pool", describe=lambda c: {"case": list(c)}, function="checks + validio", unit="C05.sweep")
         return [multi, sweep("C05/sweep/IsUnique and DistinctCount through validio.rows", cases(), check, "bounded",
-                      "IsUnique over 1-3 key fields x row sequences of 0-4 rows (0-6 thorough) over a 4-row pool incl. a field-rejected row x 3 modes; DistinctCount 6 operators x thresholds 0-3 x sequences of 0-3 rows",
+                      "IsUnique over 1-3 key fields x row sequences of 0-4 rows (0-6 thorough) over a 5-row pool incl. a field-rejected row and a differently spelled number x 3 modes; DistinctCount 6 operators x thresholds 0-3 x sequences of 0-3 rows",
                       describe=lambda c: {"case": list(c)}, function="checks + validio", unit="C05.sweep")]
     return NativeUnit("C05.sweep", "end-to-end bounded sweep of the two built-in checks through validio.rows (single check per CID)", ["C05"], run, kind="bounded")
 
